@@ -73,4 +73,23 @@ def session (sink : Sink) (fuel : Nat) : BW → List Bytes → List (Option Err)
     let (es, fin) := session sink fuel b1 ps
     (e :: es, fin)
 
+/-! ### a sink used directly
+
+`pdf.NewWriter` does not put its own `bufio.Writer` in front of a sink that has a method
+`Flush() error` (interface `writeFlusher` in `writer.go`).  Then nothing is sticky: the Writer is a
+sequence of sink calls, and what it reports depends on which results it looks at. -/
+
+/-- a Writer session over a directly used sink: the calls `ps` are made in order, call `k` being
+    the `k`-th call of the sink; `checked k` says whether the code looks at the error of call `k`
+    (and returns it, ending the session).  Result: the error the Writer reports, and whether some
+    call that was made has failed. -/
+def directSession (sink : Sink) (checked : Nat → Bool) : Nat → List Bytes → Option Err × Bool
+  | _, [] => (none, false)
+  | k, p :: ps =>
+    match (sink k p).2 with
+    | some e =>
+      if checked k then (some e, true)
+      else ((directSession sink checked (k + 1) ps).1, true)
+    | none => directSession sink checked (k + 1) ps
+
 end PdfVerif.ROB
